@@ -349,7 +349,7 @@ fn run(case: &str) -> String {
     let mut file_open = false;
     let big = ms.contains('*');
     // sessions that use the other collect modes (one-pass streams, no collection): only "one reply each, server alive" is specified
-    let wild = script.contains("open1p") || script.contains("opennc") || script.contains("openxc") || script.contains("stream1p");
+    let wild = script.contains("open1p") || script.contains("opennc") || script.contains("openxc") || script.contains("stream1p") || script.contains("openexp") || script.contains("openmun");
     let long = if big { Duration::from_secs(40) } else { Duration::from_secs(4) };
     for cmd in script.split(" ;; ").filter(|x| !x.trim().is_empty()) {
         // `!cmd`: sent at once, whatever the parsing progress is
@@ -380,6 +380,30 @@ fn run(case: &str) -> String {
             "open1p" => format!(r#"open {{"files":[{}],"collect":"one_pass_streams"}}"#, serde_json::json!(path.to_str().unwrap())),
             "opennc" => format!(r#"open {{"files":[{}],"collect":false}}"#, serde_json::json!(path.to_str().unwrap())),
             "openxc" => format!(r#"open {{"files":[{}],"collect":"bogus"}}"#, serde_json::json!(path.to_str().unwrap())),
+            // plugin configurations with extreme / odd values in the open command
+            x if x.starts_with("openexp") => {
+                let v = match x.trim_start_matches("openexp") {
+                    "0" => serde_json::json!(18446744073709551615u64),
+                    "1" => serde_json::json!("18446744073709551615n"),
+                    "2" => serde_json::json!(18446744073709552u64),
+                    _ => serde_json::json!(1000),
+                };
+                let key = if x.ends_with('2') { "recordedTimeToMs" } else { "recordedTimeFromMs" };
+                format!(
+                    r#"open {{"files":[{}],"plugins":[{{"name":"Export","exportFileName":{},"filters":[],"{}":{}}}]}}"#,
+                    serde_json::json!(path.to_str().unwrap()),
+                    serde_json::json!(dir.path().join("export.dlt").to_str().unwrap()),
+                    key,
+                    v
+                )
+            }
+            "openmun" => {
+                // a description directory with a file that is not valid UTF-8
+                let jd = dir.path().join("muniic_bad");
+                let _ = std::fs::create_dir_all(&jd);
+                let _ = std::fs::write(jd.join("model.json"), [0xffu8, 0xfe, 0x00, 0x7b]);
+                format!(r#"open {{"files":[{}],"plugins":[{{"name":"Muniic","jsonDir":{}}}]}}"#, serde_json::json!(path.to_str().unwrap()), serde_json::json!(jd.to_str().unwrap()))
+            }
             "stream1p" => format!(r#"stream {{"one_pass":true,"window":[{},{}],"binary":true,"filters":{}}}"#, f[2], f[3], filters_json(f[1])),
             "close" => "close".to_string(),
             "pause" => "pause".to_string(),
@@ -438,7 +462,7 @@ fn run(case: &str) -> String {
             Some(t) => {
                 let r = if t.starts_with("ok:") {
                     match f[0] {
-                        "open" | "opensort" | "open1p" | "opennc" | "openxc" => {
+                        x if x.starts_with("open") => {
                             file_open = true;
                             "ok:open".to_string()
                         }
@@ -692,7 +716,7 @@ fn gen(rng: &mut Rng, tier: u32) -> String {
     let wild = rng.chance(6);
     let wild = wild && !directed;
     let open_cmd = if wild {
-        *rng.pick(&["open1p", "open1p", "open1p", "opennc", "openxc"])
+        *rng.pick(&["open1p", "open1p", "open1p", "opennc", "openxc", "openexp0", "openexp1", "openexp2", "openexp3", "openmun"])
     } else if (strict || (monotone && rng.chance(2))) && (directed || rng.chance(2)) {
         "opensort"
     } else {
